@@ -325,7 +325,11 @@ def end_to_end_cases():
 
 
 def build_cases(tier="quick"):
-    return pin_cases() + check_unsat_cores_cases() + parse_core_cases() + from_result_cases() + recording_cases() + end_to_end_cases()
+    # a tracked implication only binds through its named assertion: also for refined queries (C11 contract of dump)
+    from contracts import c11
+
+    ref = [Case(f"{PROP}/solve.dump#named-assertions", c.case, c.harness, replay=c.replay, sources=c.sources) for c in c11.dump_cases()]
+    return pin_cases() + check_unsat_cores_cases() + parse_core_cases() + from_result_cases() + recording_cases() + end_to_end_cases() + ref
 
 
 def bounded():
